@@ -45,6 +45,9 @@ type cellInfo struct {
 	defs   map[ssa.Instruction]*cdef
 	bad    string
 	busy   map[*cdef]bool
+	// builder: the cell is a local strings.Builder / bytes.Buffer; its events
+	// are the write calls made on it
+	builder bool
 }
 
 // cellOf recognises a []byte variable held in memory because a closure
@@ -255,6 +258,16 @@ func (x *X) encDef(ci *cellInfo, d *cdef, at ssa.Instruction) []Atom {
 		return x.enc(d.st.Val, at)
 	case cdCall:
 		pre := x.encDef(ci, d.prev, d.call)
+		if ci.builder {
+			if _, name, _ := builderMethod(d.call); name == "Reset" {
+				return nil
+			}
+			tail, ok := x.builderTail(d.call)
+			if !ok {
+				return append(append([]Atom(nil), pre...), unknown(d.call.Pos(), "what this call writes into the builder could not be determined")...)
+			}
+			return append(append([]Atom(nil), pre...), tail...)
+		}
 		tail, ok := x.closureTail(ci, d.call)
 		if !ok {
 			return append(append([]Atom(nil), pre...), unknown(d.call.Pos(), "what the closure called here appends to the buffer could not be determined")...)
@@ -492,4 +505,118 @@ func (x *X) cellAliases(st *ssa.Store) []ssa.Value {
 		}
 	}
 	return out
+}
+
+// ---------------------------------------------------------------------------
+// strings.Builder / bytes.Buffer accumulation
+//
+// An encoder that collects its output in a local strings.Builder or
+// bytes.Buffer (var sb strings.Builder; sb.WriteByte(…); …; return sb.String())
+// is read exactly like one whose buffer variable lives in memory: every
+// Write/WriteByte/WriteString call on the local is a definition that extends
+// the content, joins get a φ, a loop-carried φ becomes a repeat. The local must
+// be used for nothing but method calls of its own type (no closure, no
+// in-module helper, no fmt.Fprintf: then the content is unknown).
+
+func isBuilderType(t types.Type) bool {
+	n, ok := deref(t).(*types.Named)
+	if !ok || n.Obj().Pkg() == nil {
+		return false
+	}
+	switch n.Obj().Pkg().Path() + "." + n.Obj().Name() {
+	case "strings.Builder", "bytes.Buffer":
+		return true
+	}
+	return false
+}
+
+// builderMethod: call is a method of strings.Builder / bytes.Buffer on recv.
+func builderMethod(call *ssa.Call) (recv ssa.Value, name string, ok bool) {
+	f := call.Call.StaticCallee()
+	if f == nil || f.Signature.Recv() == nil || call.Call.IsInvoke() || len(call.Call.Args) == 0 {
+		return nil, "", false
+	}
+	if !isBuilderType(f.Signature.Recv().Type()) {
+		return nil, "", false
+	}
+	return call.Call.Args[0], f.Name(), true
+}
+
+func (x *X) builderInfoOf(al *ssa.Alloc) *cellInfo {
+	if x.cells == nil {
+		x.cells = map[ssa.Value]*cellInfo{}
+	}
+	if ci, ok := x.cells[al]; ok {
+		return ci
+	}
+	ci := &cellInfo{cell: al, events: map[*ssa.BasicBlock][]ssa.Instruction{}, in: map[*ssa.BasicBlock]*cdef{},
+		defs: map[ssa.Instruction]*cdef{}, busy: map[*cdef]bool{}, builder: true}
+	x.cells[al] = ci
+	isEvent := map[ssa.Instruction]bool{}
+	if refs := al.Referrers(); refs != nil {
+		for _, r := range *refs {
+			switch y := r.(type) {
+			case *ssa.DebugRef:
+			case *ssa.Call:
+				recv, name, ok := builderMethod(y)
+				if !ok || recv != ssa.Value(al) {
+					ci.bad = "the builder is passed to " + x.exprString(y, 0)
+					continue
+				}
+				for _, a := range y.Call.Args[1:] {
+					if a == ssa.Value(al) {
+						ci.bad = "the builder is passed to one of its own methods"
+					}
+				}
+				switch name {
+				case "Write", "WriteString", "WriteByte", "Reset":
+					isEvent[y] = true
+				case "String", "Bytes", "Len", "Cap", "Grow":
+				default:
+					ci.bad = "method " + name + " of the builder is not modelled"
+				}
+			case *ssa.Store:
+				if y.Addr == ssa.Value(al) {
+					// sb = strings.Builder{}: a zero value re-assigned
+					ci.bad = "the builder variable is re-assigned"
+				} else {
+					ci.bad = "the address of the builder is stored"
+				}
+			default:
+				ci.bad = fmt.Sprintf("the builder is used by %T", r)
+			}
+		}
+	}
+	for _, b := range x.Fn.Blocks {
+		for _, in := range b.Instrs {
+			if isEvent[in] {
+				ci.events[b] = append(ci.events[b], in)
+			}
+		}
+	}
+	return ci
+}
+
+// encBuilder: the content of the local builder as it is just before `at`.
+func (x *X) encBuilder(al *ssa.Alloc, at ssa.Instruction) []Atom {
+	ci := x.builderInfoOf(al)
+	if ci.bad != "" {
+		return unknown(at.Pos(), "%s", ci.bad)
+	}
+	return x.encDef(ci, x.cellBefore(ci, at), at)
+}
+
+// builderTail: what one write call appends.
+func (x *X) builderTail(call *ssa.Call) ([]Atom, bool) {
+	_, name, ok := builderMethod(call)
+	if !ok || len(call.Call.Args) != 2 {
+		return nil, false
+	}
+	switch name {
+	case "WriteByte":
+		return []Atom{x.valueAtom(call.Call.Args[1], 1, "", call)}, true
+	case "Write", "WriteString":
+		return x.enc(call.Call.Args[1], call), true
+	}
+	return nil, false
 }
